@@ -79,12 +79,48 @@ class PyTarget:
         if k == "float":
             return float(v)
         if k in ("farr", "varr"):
-            return [self.build(t["e"], x) for x in v]
+            return self.present(t, [self.build(t["e"], x) for x in v])
         cls = self.cls[t["name"] + (t.get("svc") or "")]
         if k == "struct":
             return cls(**{"f%d" % i: self.build(f, x) for i, (f, x) in enumerate(zip(t["fields"], v)) if f["k"] != "void"})
         tag, x = v
         return cls(**{"f%d" % tag: self.build(t["fields"][tag], x)})
+
+    def present(self, t, lst):
+        """the same array value in the forms user code hands to a field: list, tuple, ndarray of the storage type, ndarray in the NON-native byte
+        order, a strided (non-contiguous) view, a read-only ndarray.  The value is the same, so the representation must be the same; which form a
+        value gets depends on the value only (reproducible)."""
+        e = t["e"]
+        if not lst or e["k"] not in ("uint", "int", "float", "bool") or not getattr(self, "presentations", True):
+            return lst
+        np = self.np
+        mode = (len(lst) + sum(int(abs(x)) % 97 if isinstance(x, (int, bool)) else 3 for x in lst)) % 8
+        if mode < 2:
+            return lst
+        if mode == 2:
+            return tuple(lst)
+        try:
+            if e["k"] == "bool":
+                dt = np.dtype(np.bool_)
+            elif e["k"] == "float":
+                dt = np.dtype("f%d" % (e["w"] // 8))
+            else:
+                dt = np.dtype("%s%d" % ("u" if e["k"] == "uint" else "i", dsdl.store_w(e["w"]) // 8))
+            a = np.array(lst, dtype=dt)
+            if [x for x in a.tolist()] != [x for x in lst] and e["k"] != "float":
+                return lst
+            if mode == 3:
+                return a
+            if mode in (4, 7):
+                return a.astype(dt.newbyteorder(">" if sys.byteorder == "little" else "<")) if dt.itemsize > 1 else a
+            if mode == 5:
+                b = np.zeros(2 * len(lst), dtype=dt)
+                b[::2] = a
+                return b[::2]
+            a.setflags(write=False)
+            return a
+        except (OverflowError, ValueError, TypeError):
+            return lst
 
     def dump(self, t, o):
         k = t["k"]
